@@ -5,7 +5,7 @@ cd /verif
 for d in seeded/*/; do
   n=$(basename $d); p=${n%%-*}
   git -C /repo diff --quiet || { echo "/repo dirty"; exit 2; }
-  git -C /repo apply $d/patch.diff || { echo "$n: patch does not apply"; continue; }
+  git -C /repo apply /verif/${d}patch.diff || { echo "$n: patch does not apply"; continue; }
   out=$(VERIF_SEED=${VERIF_SEED:-0} ./check $p quick 2>&1)
   git -C /repo checkout -- .
   if echo "$out" | grep -q "^VIOLATION.*no-failing-input-found"; then r=NO-INPUT
